@@ -38,6 +38,15 @@ HISTORY stratum (every object the oracle sees): derivative(x) twice; x, y, x int
 in-place change of the element passed before, derivative is the one at the NEW value (fresh element
 and central differences at the new point).  Whether an operator returned earlier follows a later
 in-place change of the point is recorded as an observation only.
+MAGNITUDE strata (zoo): every entry again at the base point and direction scaled by 2^-40 .. 2^40
+(exact scaling, steps relative to the scale of the point, purely relative tolerances; skipped
+where the scaled point is outside the domain or not resolvable), points on a dyadic grid at
+distance 2^-30 from the reference vector of DistOperator / the origin for NormOperator / the
+translation of L2Norm.translated, and the documented exceptional points, which must raise the
+documented ValueError (and, by the strata above, only there).
+OPTION crosses: every spelling of `weighting=` (None, 1, 1.0, list / array of ones, constant,
+array) x every weighting of the ProductSpace (none, constant, array) for PointwiseNorm
+(exponents 2, 1, 3), PointwiseInner and PointwiseSum.
 Oracle for the FLAG: every operator/functional the streams build (leaf or composite, and every
 derivative returned) that is flagged is_linear must map 0 to 0 and be additive and homogeneous
 (over the reals) on random points.  NotImplementedError
@@ -694,7 +703,7 @@ def gen_case(rng, depth):
 # ---------------------------------------------------------------------------
 # the oracle: central differences on the real code
 
-def cd_check(op, x, d, Dd, tol=1e-7, ks=range(4, 15), rate=True):
+def cd_check(op, x, d, Dd, tol=1e-7, ks=range(4, 15), rate=True, vfloor=1.0):
     """None if Dd agrees with the central differences of op at x in direction d, else a string.
 
     Value test: COMPONENT-WISE against the Richardson-extrapolated estimate (4 CD(h/2) - CD(h))/3
@@ -717,7 +726,12 @@ def cd_check(op, x, d, Dd, tol=1e-7, ks=range(4, 15), rate=True):
         return None
     ks = list(ks)
     scale = max([float(np.max(np.abs(Dd)))] + [float(np.max(np.abs(c))) for c in cds])
-    vscale = max(float(np.max(np.abs(flat(op(x))))), 1.0)
+    # scale of the values (round-off floor of a difference quotient is relative to it); with
+    # vfloor = 0 (magnitude strata) everything is relative: values at x and at x +- d/16
+    vscale = max(float(np.max(np.abs(flat(op(x))))), vfloor)
+    if vfloor == 0.0:
+        vscale = max(vscale, float(np.max(np.abs(flat(op(x + 2.0 ** -ks[0] * d))))),
+                     float(np.max(np.abs(flat(op(x - 2.0 ** -ks[0] * d))))), 1e-300)
     errs = [float(np.max(np.abs(c - Dd))) for c in cds]
     rich = [(4 * cds[i + 1] - cds[i]) / 3 for i in range(len(cds) - 1)]
     rerr = [float(np.max(np.abs(r - Dd))) for r in rich]
@@ -909,10 +923,59 @@ def history_check(op, x, d, r1, tol):
     return problems
 
 
+MAGS = [-40, -20, 20, 40]
+
+
+def magnitude_check(op, x, d, e, tol):
+    """The oracle at the base point and direction scaled by 2^e (exact scaling): RELATIVE steps
+    (the direction has the scale of the point) and purely relative tolerances.  Returns
+    ('skip', None) when the scaled point is outside the domain / not resolvable by difference
+    quotients, else ('ok' | 'fail', problems)."""
+    sc = 2.0 ** e
+    try:
+        with np.errstate(all='ignore'):
+            xs, ds = sc * x, sc * d
+            v = flat(op(xs))
+            if not np.all(np.isfinite(v)):
+                return 'skip', None
+            c12 = (flat(op(xs + 2.0 ** -12 * ds)) - flat(op(xs - 2.0 ** -12 * ds))) * 2.0 ** 11
+            c14 = (flat(op(xs + 2.0 ** -14 * ds)) - flat(op(xs - 2.0 ** -14 * ds))) * 2.0 ** 13
+            c4 = (flat(op(xs + 2.0 ** -4 * ds)) - flat(op(xs - 2.0 ** -4 * ds))) * 2.0 ** 3
+        if not (np.all(np.isfinite(c12)) and np.all(np.isfinite(c14)) and np.all(np.isfinite(c4))):
+            return 'skip', None       # overflow within the stencil: outside the resolvable region
+        if c14.size and np.max(np.abs(c12 - c14)) > 1e-5 * np.max(np.abs(c14)):
+            return 'skip', None
+    except Exception:  # noqa  (evaluation outside the domain of the operator)
+        return 'skip', None
+    where = 'base point scaled by 2^{} (|x|_inf = {:.3e})'.format(e, float(np.max(np.abs(flat(xs)))))
+    try:
+        with np.errstate(all='ignore'):
+            D = op.derivative(xs)
+    except NotImplementedError:
+        return 'skip', None
+    except Exception as ex:  # noqa
+        return 'fail', ['derivative(x) raised {}: {} at a {} where op is differentiable (central differences '
+                        '{})'.format(type(ex).__name__, str(ex)[:120], where,
+                                     np.array2string(c14[:4], precision=6))]
+    problems = []
+    try:
+        with np.errstate(all='ignore'):
+            if not D.is_linear:
+                problems.append('derivative(x).is_linear is False at a ' + where)
+            Dd = D(ds)
+            msg = cd_check(op, xs, ds, Dd, tol=tol, rate=False, vfloor=0.0)
+        if msg:
+            problems.append(where + ': ' + msg)
+    except Exception as ex:  # noqa
+        problems.append('derivative(x)(d) raised {}: {} at a {}'.format(type(ex).__name__, str(ex)[:120], where))
+    return ('fail' if problems else 'ok'), problems
+
+
 NOT_PROVIDED = ['<no derivative provided: NotImplementedError>']
 
 
-def oracle_on(op, x, d, exact_linear=True, tol=1e-7, rate=True, allow_notimpl=False, history=True):
+def oracle_on(op, x, d, exact_linear=True, tol=1e-7, rate=True, allow_notimpl=False, history=True,
+              vfloor=1.0):
     """All oracle checks of the property for one operator / base point / direction.
     Returns (problems, D, Dd)."""
     problems = []
@@ -955,7 +1018,7 @@ def oracle_on(op, x, d, exact_linear=True, tol=1e-7, rate=True, allow_notimpl=Fa
                 problems.append('operator flagged linear but derivative(x)(d) = {} != op(d) = {}'.format(
                     np.array2string(flat(Dd)[:6]), np.array2string(od[:6])))
         with np.errstate(all='ignore'):
-            msg = cd_check(op, x, d, Dd, tol=tol, rate=rate)
+            msg = cd_check(op, x, d, Dd, tol=tol, rate=rate, vfloor=vfloor)
         if msg:
             problems.append(msg)
         if history and not problems:
@@ -1608,8 +1671,10 @@ def zoo(ctx):
     c2 = odl.cn(2)
     Z = []
 
-    def add(name, classes, make, tol=1e-7, rate=True, allow_notimpl=False):
-        Z.append((name, classes, make, tol, rate, allow_notimpl))
+    def add(name, classes, make, tol=1e-7, rate=True, allow_notimpl=False, **opts):
+        # opts: relative=True (purely relative tolerances: tiny / huge data), once=True (one
+        # repetition in the quick tier), tag=<stratum for EXPECTED_BRANCHES>, nomag=True
+        Z.append((name, classes, make, tol, rate, allow_notimpl, opts))
 
     def el(sp, vals):
         return sp.element(vals)
@@ -1703,6 +1768,60 @@ def zoo(ctx):
                             sp.element([np.reshape(_gen(rng, n0), sp[0].shape) for _ in range(len(sp))]),
                             sp.element([np.reshape(_gen(rng, n0), sp[0].shape) for _ in range(len(sp))]))
                 add('PointwiseNorm({}, exponent={}, weighting={})'.format(nm, ex, w), ['PointwiseNorm'], mk)
+    # --- near the documented non-differentiable points, on a dyadic grid (exact arithmetic):
+    # distance 2^-30 from the reference vector / the origin, steps relative to that distance
+    def dy(n, lo=8, hi=40):
+        return [rng.randint(lo, hi) / 16.0 * rng.choice([-1, 1]) for _ in range(n)]
+    tiny = 2.0 ** -30
+    for sp, nm in [(r3, 'rn(3)'), (r3w, 'rn(3, weighting=2.5)'), (odl.uniform_discr(0, 1, 4), 'uniform_discr(0,1,4)')]:
+        def mk_dist(sp=sp):
+            v = sp.element(dy(sp.size))
+            return (odl.DistOperator(v), v + tiny * sp.element(dy(sp.size)), tiny * sp.element(dy(sp.size)))
+        add('DistOperator({}) at distance 2^-30 from the reference vector'.format(nm), ['DistOperator'],
+            mk_dist, relative=True, nomag=True, tag='oracle/near-reference/DistOperator')
+
+        def mk_norm(sp=sp):
+            return (odl.NormOperator(sp), tiny * sp.element(dy(sp.size)), tiny * sp.element(dy(sp.size)))
+        add('NormOperator({}) at norm ~ 2^-30'.format(nm), ['NormOperator'], mk_norm, relative=True,
+            nomag=True, tag='oracle/near-reference/NormOperator')
+
+        def mk_l2t(sp=sp):
+            t = sp.element(dy(sp.size))
+            return (odl.solvers.L2Norm(sp).translated(t), t + tiny * sp.element(dy(sp.size)),
+                    tiny * sp.element(dy(sp.size)))
+        add('Functional.derivative L2Norm({}).translated(t) at distance 2^-30 from t'.format(nm), ['Functional'],
+            mk_l2t, relative=True, nomag=True, tag='oracle/near-reference/L2Norm.translated')
+    # --- OPTION crosses of the operators that take their own weights: every spelling of
+    # `weighting=` x every weighting of the underlying ProductSpace
+    SPELL = [('None', lambda n: None), ('1', lambda n: 1), ('1.0', lambda n: 1.0),
+             ('list-of-ones', lambda n: [1] * n), ('np.ones', lambda n: np.ones(n)),
+             ('const-2.5', lambda n: 2.5), ('array', lambda n: [0.5, 2.0, 1.5][:n])]
+    SPW = [('none', {}), ('const-2.5', {'weighting': 2.5}), ('array', {'weighting': [0.5, 2.0]})]
+    for spw_name, spw in SPW:
+        vfw = odl.ProductSpace(odl.rn(3), 2, **spw)
+
+        def vfel(vfw=vfw):
+            return vfw.element([_gen(rng, 3), _gen(rng, 3)])
+        for sp_name, sp_fn in SPELL:
+            for ex in [2, 1, 3]:
+                add('PointwiseNorm(rn(3)^2 space-weighting={}, exponent={}, weighting={})'.format(
+                    spw_name, ex, sp_name), ['PointwiseNorm'],
+                    lambda vfw=vfw, vfel=vfel, ex=ex, sp_fn=sp_fn: (
+                        odl.PointwiseNorm(vfw, exponent=ex, weighting=sp_fn(2)), vfel(), vfel()),
+                    once=True, nomag=True,
+                    tag='oracle/weighting-cross/PointwiseNorm/own={}/space={}'.format(sp_name, spw_name))
+            add('PointwiseInner(rn(3)^2 space-weighting={}, weighting={})'.format(spw_name, sp_name),
+                ['PointwiseInner'],
+                lambda vfw=vfw, vfel=vfel, sp_fn=sp_fn: (
+                    odl.PointwiseInner(vfw, vfel(), weighting=sp_fn(2)), vfel(), vfel()),
+                once=True, nomag=True,
+                tag='oracle/weighting-cross/PointwiseInner/own={}/space={}'.format(sp_name, spw_name))
+            add('PointwiseSum(rn(3)^2 space-weighting={}, weighting={})'.format(spw_name, sp_name),
+                ['PointwiseSum'],
+                lambda vfw=vfw, vfel=vfel, sp_fn=sp_fn: (
+                    odl.PointwiseSum(vfw, weighting=sp_fn(2)), vfel(), vfel()),
+                once=True, nomag=True,
+                tag='oracle/weighting-cross/PointwiseSum/own={}/space={}'.format(sp_name, spw_name))
     # --- pspace_ops
     ps = odl.ProductSpace(r3, r3)
 
@@ -1892,12 +2011,15 @@ def zoo(ctx):
 
 
 ZOO_CLASSES_SEEN = set()
+_MAG_N = [0]
 
 
 def run_zoo_entry(entry, reps):
     """Returns list of (problems, nontrivial, replay-info)."""
-    name, classes, make, tol, rate, allow_notimpl = entry
+    name, classes, make, tol, rate, allow_notimpl, opts = entry
     out = []
+    if opts.get('once') and QUICK[0]:
+        reps = 1
     for rep in range(reps):
         try:
             op, x, d = make()
@@ -1907,8 +2029,23 @@ def run_zoo_entry(entry, reps):
             continue
         with np.errstate(all='ignore'):
             problems, D, Dd = oracle_on(op, x, d, exact_linear=False, tol=tol, rate=rate,
-                                        allow_notimpl=allow_notimpl)
+                                        allow_notimpl=allow_notimpl,
+                                        vfloor=0.0 if opts.get('relative') else 1.0)
         ZOO_CLASSES_SEEN.add(type(op).__name__)
+        if opts.get('tag'):
+            _hist(opts['tag'])
+        # magnitude strata: the same object at the base point scaled by 2^e
+        if rep == 0 and problems is not NOT_PROVIDED and not problems and not opts.get('nomag') \
+                and tol <= 1e-6:
+            mags = MAGS if not QUICK[0] else [MAGS[(_MAG_N[0] + q) % 4] for q in (0, 2)]
+            _MAG_N[0] += 1
+            for e in mags:
+                st, pr = magnitude_check(op, x, d, e, tol)
+                _hist('oracle/magnitude/2^{}/{}'.format(e, 'checked' if st != 'skip' else 'skipped'))
+                if st != 'skip':
+                    _hist('oracle/magnitude-checked/' + classes[0])
+                if st == 'fail':
+                    problems = list(problems) + pr
         if problems is NOT_PROVIDED:
             out.append(([], False, {'kind': 'zoo', 'name': name, 'not_provided': True}))
             continue
@@ -1917,6 +2054,27 @@ def run_zoo_entry(entry, reps):
                 'd': [float(v) for v in flat(d).tolist()]}
         out.append((problems, nontrivial, info))
     return out
+
+
+def exceptional_points(ctx):
+    """The documented exceptional points raise the documented error (and, by the magnitude /
+    near-reference strata, ONLY there)."""
+    import odl
+    r3 = odl.rn(3)
+    v = r3.element([1.5, -2.0, 0.75])
+    for name, op, pt in [('NormOperator(rn(3)).derivative(0)', odl.NormOperator(r3), r3.zero()),
+                         ('DistOperator(v).derivative(v)', odl.DistOperator(v), v.copy())]:
+        ctx.case(('exceptional', name))
+        ctx.hit('oracle/exceptional-point/' + name.split('(')[0])
+        try:
+            D = op.derivative(pt)
+            ctx.violation('exceptional point ' + name, 'did not raise the documented ValueError, returned {!r}'
+                          .format(D)[:300], {'kind': 'exceptional', 'name': name})
+        except ValueError:
+            pass
+        except Exception as e:  # noqa
+            ctx.violation('exceptional point ' + name, 'raised {} instead of the documented ValueError: {}'
+                          .format(type(e).__name__, str(e)[:200]), {'kind': 'exceptional', 'name': name})
 
 
 def zoo_stream(ctx, reps):
@@ -2080,6 +2238,11 @@ def run(ctx):
     mixed_stream(ctx, 300 if quick else 4000)
     functional_stream(ctx, 320 if quick else 3000)
     zoo_stream(ctx, 3 if quick else 25)
+    try:
+        exceptional_points(ctx)
+    except Exception as e:  # noqa
+        ctx.violation('exceptional points', 'raised {}: {}'.format(type(e).__name__, str(e)[:200]),
+                      {'kind': 'exceptional'})
     ctx.hit('oracle/linear-flag-checked', FLAG_CHECKS[0])
     for key, cnt in sorted(HIST.items()):
         ctx.hit(key, cnt)
@@ -2110,7 +2273,16 @@ EXPECTED_BRANCHES = ['model/' + b for b in [
                                   'diag/power-constructor', 'sum/nonlinear', 'comp/nonlinear',
                                   'bcast/nonlinear', 'reduce/nonlinear', 'diag/nonlinear', 'pso/nonlinear']] + [
     'oracle/history/' + b for b in ['repeat-same-point', 'interleaved-x-y-x', 'in-place-mutation',
-                                    'cd-at-mutated-point']]
+                                    'cd-at-mutated-point']] + [
+    'oracle/magnitude/2^{}/checked'.format(e) for e in MAGS] + [
+    'oracle/magnitude-checked/' + c for c in ['NormOperator', 'DistOperator', 'PointwiseNorm', 'PowerOperator',
+                                              'ComplexModulus', 'Functional', 'PartialDerivative']] + [
+    'oracle/near-reference/' + c for c in ['DistOperator', 'NormOperator', 'L2Norm.translated']] + [
+    'oracle/exceptional-point/' + c for c in ['NormOperator', 'DistOperator']] + [
+    'oracle/weighting-cross/{}/own={}/space={}'.format(c, o, w)
+    for c in ['PointwiseNorm', 'PointwiseInner', 'PointwiseSum']
+    for o in ['None', '1', '1.0', 'list-of-ones', 'np.ones', 'const-2.5', 'array']
+    for w in ['none', 'const-2.5', 'array']]
 
 
 def search(ctx, broken):
